@@ -21,7 +21,10 @@ enum Kind { LEAF,
             MUL,
             DIV,
             NEG,
-            CONVERT };
+            CONVERT,
+            MOD,  // a % b: remainder of the reps (sign of the dividend), exponent of a
+            CMP,  // the six comparisons of two nodes; not an operand of later nodes
+            ASSIGN };  // T y{}; y = x;  (same contract as the converting construction T{x})
 
 struct NodeSpec {
     int kind;
@@ -41,6 +44,16 @@ struct Trace {
         o.rep = rep_mpz(x);
         o.digits = cnl::digits_v<X>;
         o.exponent = scaled_info<X>::exponent;
+        nodes.push_back(o);
+    }
+    template<class X, class Y>
+    void rec_cmp(X const& x, Y const& y)
+    {
+        Obs o;
+        o.rep = (x == y ? 1 : 0) | (x != y ? 2 : 0) | (x < y ? 4 : 0) | (x <= y ? 8 : 0) | (x > y ? 16 : 0) | (x >= y ? 32 : 0);
+        // and with the operands swapped (the specialisations for "coarser on the left / on the right" are separate code)
+        o.rep += ((y == x ? 1 : 0) | (y != x ? 2 : 0) | (y > x ? 4 : 0) | (y >= x ? 8 : 0) | (y < x ? 16 : 0) | (y <= x ? 32 : 0)) << 6;
+        o.digits = -1;
         nodes.push_back(o);
     }
 };
@@ -116,6 +129,30 @@ inline std::vector<Expect> analyse(Chain const& c, Inputs const& in, int narrowe
                 e.cause = "multiply-predicate-division-bias/";
             break;
         case NEG: e.exponent = A.exponent, e.digits = A.digits, e.value = -A.value; break;
+        case MOD: {
+            e.exponent = A.exponent, e.digits = std::min(A.digits, B.digits);
+            if (B.value == 0) {
+                e.zero_divisor = true;
+                break;
+            }
+            mpz_class ra = mpq_class(A.value / qpow(2, A.exponent)).get_num(), rb = mpq_class(B.value / qpow(2, B.exponent)).get_num(), r;
+            mpz_tdiv_r(r.get_mpz_t(), ra.get_mpz_t(), rb.get_mpz_t());
+            e.value = mkq(r) * qpow(2, e.exponent);
+            break;
+        }
+        case CMP: {
+            int ord = cmp(A.value, B.value);
+            long m = (ord == 0 ? 1 : 0) | (ord != 0 ? 2 : 0) | (ord < 0 ? 4 : 0) | (ord <= 0 ? 8 : 0) | (ord > 0 ? 16 : 0) | (ord >= 0 ? 32 : 0);
+            e.value = mkq(mpz_class(m + (m << 6)));
+            e.digits = -1;
+            // inherited (same root cause as multiply-predicate-division-bias): the coarser operand is brought to the finer exponent by a
+            // checked multiplication by 2^shift; when its digits + shift fill their storage, the overflow predicate's rounding division overflows
+            if ((c.round == R_NEAREST || c.round == R_TIE_POS) && A.exponent != B.exponent) {
+                int d = (A.exponent > B.exponent ? A.digits : B.digits) + std::abs(A.exponent - B.exponent);
+                if (storage_digits(d, narrowest_digits) == d && d >= 31) e.cause = "multiply-predicate-division-bias/";
+            }
+            break;
+        }
         case DIV: {
             e.exponent = A.exponent - B.exponent, e.digits = A.digits;
             if (B.value == 0) {
@@ -171,7 +208,7 @@ inline std::vector<Expect> analyse(Chain const& c, Inputs const& in, int narrowe
 
 inline char const* kind_name(int k)
 {
-    static char const* n[] = {"leaf", "+", "-", "*", "/", "neg", "convert"};
+    static char const* n[] = {"leaf", "+", "-", "*", "/", "neg", "convert", "%", "cmp", "assign"};
     return n[k];
 }
 
@@ -232,8 +269,13 @@ inline void check_chain(Chain const& c, int narrowest_digits, Inputs const& in, 
             return o.fail(where(i) + "evaluation-stopped", "after " + std::to_string(completed) + " nodes");
         }
         Obs const& ob = tr.nodes[i];
+        if (c.nodes[i].kind == CMP) {
+            if (mkq(ob.rep) != e.value) return o.fail(where(i) + "comparison-mismatch", "six comparisons (and swapped): expected mask " + qstr(e.value) + " got " + zstr(ob.rep));
+            ++ops_done;
+            continue;
+        }
         mpq_class got = mkq(ob.rep) * qpow(2, ob.exponent);
-        if (c.nodes[i].kind == LEAF || c.nodes[i].kind == CONVERT) {
+        if (c.nodes[i].kind == LEAF || c.nodes[i].kind == CONVERT || c.nodes[i].kind == ASSIGN) {
             if (ob.digits != e.digits || ob.exponent != e.exponent) return o.fail(where(i) + "type", "digits " + std::to_string(ob.digits) + " exponent " + std::to_string(ob.exponent));
         } else if (ob.exponent != e.exponent) {
             return o.fail(where(i) + "result-exponent", "expected " + std::to_string(e.exponent) + " got " + std::to_string(ob.exponent));
